@@ -304,8 +304,34 @@ impl Scenario for BlockLockstep {
                 None => draw_regs(rng),
             }
         };
-        let age = rng.below(8);
+        let age = if grid.is_some() { 0 } else { rng.below(8) };
         case.set("age", age as i64);
+        if grid.is_some() {
+            // the grid state first (full comparison), then 15 follow-up executions of the same (now cached) block from uniformly
+            // drawn A / operand / flags, the last one compared in full again
+            let r = draw_regs(rng);
+            case.push("regs", &r);
+            case.push("exec", &[]);
+            for k in 0..15 {
+                let mut r = draw_regs(rng);
+                let a = rng.byte() as i64;
+                let o = rng.byte() as i64;
+                r[0] = (a << 8) | ((rng.below(16) as i64) << 4);
+                let oo = (o << 8) | o;
+                r[1] = oo;
+                r[2] = oo;
+                if uses_hl_mem {
+                    let hl = 0xc000 + rng.below(0x1f00) as i64;
+                    r[3] = hl;
+                    case.push("w", &[hl, o]);
+                } else {
+                    r[3] = oo;
+                }
+                case.push("regs", &r);
+                case.push("exec", &[if k == 14 { 0 } else { 1 }]);
+            }
+            return;
+        }
         match age {
             0..=2 => {
                 let r = draw_regs(rng);
@@ -483,8 +509,14 @@ impl Scenario for BlockLockstep {
                             return out;
                         }
                         (Exec::Done(sj), Exec::Done(si)) => {
-                            let snj = j.snap(true);
-                            let sni = i.snap(true);
+                            // follow-up executions of an already compared block: registers, I/O registers, hidden device state and the
+                            // bus-write trace (memory is only reachable through those writes); the last execution of a case is full again
+                            let lite = op.arg(0) != 0;
+                            let snj = j.snap(!lite);
+                            let sni = i.snap(!lite);
+                            if lite {
+                                ctx.cov.hit("probe.follow_up_executions_of_cached_block");
+                            }
                             if hit {
                                 ctx.cov.hit("probe.cache_hit_executions");
                             }
